@@ -97,3 +97,50 @@ Proof.
   destruct (N.eqb_spec c 10) as [->|Hc]; [exfalso; apply H; left; reflexivity|].
   f_equal. apply IH. intros Hin. apply H. right. exact Hin.
 Qed.
+
+(* ---- -L / -I / -m / -r ---------------------------------------------------------------------------------- *)
+
+Definition cs_inv (s : csettings) : Prop := (s_lazy s = 0 \/ s_lazy s = 1)%Z /\ (1 <= s_timeout s)%Z.
+
+Lemma cstep_inv s o : cs_inv s -> cs_inv (cstep s o).
+Proof.
+  intros [Hl Ht]. destruct o as [n|n|n|]; unfold cs_inv, cstep; cbn [s_lazy s_timeout].
+  - destruct (1 <? n)%Z eqn:A.
+    { split; [right; reflexivity|cbn; exact Ht]. }
+    destruct (n <? 0)%Z eqn:B.
+    { split; [left; reflexivity|cbn; lia]. }
+    assert (n = 0 \/ n = 1)%Z as [-> | ->] by lia; cbn; (split; [lia|try lia; try exact Ht]).
+  - split; [exact Hl|]. destruct (n <? 1)%Z eqn:A; lia.
+  - split; assumption.
+  - split; assumption.
+Qed.
+
+Lemma csettings_inv opts : cs_inv (csettings_of opts).
+Proof.
+  unfold csettings_of. assert (H0 : cs_inv cs0) by (unfold cs_inv, cs0; cbn; lia).
+  revert H0. generalize cs0. induction opts as [|o r IH]; intros s Hs; cbn [fold_left]; [exact Hs|].
+  apply IH. apply cstep_inv. exact Hs.
+Qed.
+
+(* immediate mode asked for last: the select time-out is 1 second whatever -I said before *)
+Lemma lazy_off_last opts n : (n <= 0)%Z -> s_lazy (csettings_of (opts ++ [OL n])) = 0%Z /\ s_timeout (csettings_of (opts ++ [OL n])) = 1%Z.
+Proof.
+  intros Hn. unfold csettings_of. rewrite fold_left_app. cbn [fold_left cstep s_lazy s_timeout].
+  destruct (1 <? n)%Z eqn:A; [lia|]. destruct (n <? 0)%Z eqn:B; cbn; [split; reflexivity|].
+  assert (n = 0)%Z as -> by lia. split; reflexivity.
+Qed.
+
+(* -m fixes the fragment size and switches the probing off; -r switches raw mode off; nothing else touches them *)
+Lemma m_last opts n : s_autofrag (csettings_of (opts ++ [Om n])) = false /\ s_fragsize (csettings_of (opts ++ [Om n])) = n.
+Proof. unfold csettings_of. rewrite fold_left_app. split; reflexivity. Qed.
+
+Lemma no_m_no_r opts : (forall o, In o opts -> match o with Om _ | Or => False | _ => True end) ->
+  s_autofrag (csettings_of opts) = true /\ s_fragsize (csettings_of opts) = 3072%Z /\ s_raw (csettings_of opts) = true.
+Proof.
+  unfold csettings_of.
+  assert (H0 : s_autofrag cs0 = true /\ s_fragsize cs0 = 3072%Z /\ s_raw cs0 = true) by (repeat split).
+  revert H0. generalize cs0. induction opts as [|o r IH]; intros s Hs H; cbn [fold_left]; [exact Hs|].
+  apply IH.
+  - specialize (H o (or_introl eq_refl)). destruct o; cbn; try contradiction; exact Hs.
+  - intros o' Ho'. apply H. right. exact Ho'.
+Qed.
